@@ -7,18 +7,23 @@ func init() {
 			Level: "model_checking",
 			Groups: []Group{{
 				PkgPath: "honnef.co/go/tools/unused", PkgDir: "unused", PkgName: "unused",
-				Files: []string{"graph.go"},
+				Files: []string{"graph.go", "ugen.go", "source.go"},
 				Nop:   []string{"honnef.co/go/tools/unused.trace"},
 				Entries: []Entry{
 					{Fn: "Harness_C17_results_k3", Tiers: "both", Reach: []string{"end"}, Bounds: "root + 3 objects; all uses-adjacencies, all acyclic owns-adjacencies, all 6 numberings"},
 					{Fn: "Harness_C17_merge_k3", Tiers: "both", Reach: []string{"end"}, Bounds: "root + 3 objects through Merge; node list in all 6 orders; merge optionally repeated"},
 					{Fn: "Harness_C17_monotone_k3", Tiers: "both", Reach: []string{"end"}, Bounds: "root + 3 objects; one added uses-edge out of the root or a used object"},
+					{Fn: "Harness_C17_src_order_q", Tiers: "quick", Reach: []string{"end"}, Bounds: "source level: 23-declaration skeleton, 2 reference presets, every move of one declaration to another position (506 orders); parsed, type-checked and analysed by the real code inside the engine"},
+					{Fn: "Harness_C17_src_order", Tiers: "thorough", Reach: []string{"end"}, Bounds: "source level: 6 reference presets x 506 single-declaration moves"},
+					{Fn: "Harness_C17_src_files", Tiers: "both", Reach: []string{"end"}, Bounds: "source level: 6 presets x every split of the declaration list into two files x both file orders"},
+					{Fn: "Harness_C17_src_repeat", Tiers: "both", Reach: []string{"end"}, Bounds: "source level: 6 presets; analysis repeated on the same and on freshly loaded syntax"},
+					{Fn: "Harness_C17_src_monotone", Tiers: "both", Reach: []string{"end"}, Bounds: "source level: 6 presets x one of 19 reference forms added to the exported function"},
 					{Fn: "Harness_C17_results_k4", Tiers: "thorough", Reach: []string{"end"}, Bounds: "root + 4 objects, uses out-degree <= 2, all 24 numberings"},
 					{Fn: "Harness_C17_merge_k4", Tiers: "thorough", Reach: []string{"end"}, Bounds: "root + 4 objects through Merge, uses out-degree <= 2"},
 				},
 			}, {
 				PkgPath: "honnef.co/go/tools/lintcmd", PkgDir: "lintcmd", PkgName: "lintcmd",
-				Files: []string{"variants.go"},
+				Files: []string{"variants.go", "lintstub.go"},
 				Entries: []Entry{
 					{Fn: "Harness_C17_variants_211", Tiers: "both", Reach: []string{"end"}, Bounds: "2 packages, 2+1 variants, 1 object listing per variant; symbolic line (1..2), name byte, file base byte, ObjectPath package, used/unused/absent, U1000 enabled per package"},
 					{Fn: "Harness_C17_variants_221", Tiers: "both", Reach: []string{"end"}, Bounds: "2 packages, 2+2 variants, 1 object listing per variant; ObjectPath package present for all or for none"},
